@@ -45,6 +45,8 @@ def obligations(tier):
                  clause="structure check: user table consulted first, built-in table (closure body, named by an env helper) only when the name is not declared")]
     out += [dict(engine="verus", unit="infix", function="reparse::final_fold", name="C08/infix/reparse_final_fold", source=INFIX + "::reparse (statements after the token loop)",
                  clause="operators still pending when the input is exhausted group to the right, in order, over all operands (nothing dropped, duplicated or swapped); the closing length assertion and the unwraps cannot fire (inductive invariant + lemma)")]
+    out += [dict(engine="verus", unit="shrink", function="grammar::BlockExpr::fold_step", name="C08/parser/block_fold_step", source="parser/src/grammar.lalrpop::BlockExpr (the fold closure of the semantic action)",
+                 clause="a block `e; rest` becomes Do { bound: e, body: rest } whose span runs from the start of e to the end of rest")]
     out += [dict(engine="verus", unit="shrink", function="shrink_hidden_spans", name="C08/parser/shrink_hidden_spans", source="parser/src/lib.rs::shrink_hidden_spans",
                  clause="span shrinking and block flattening against a specification of where each expression kind visibly ends: a singleton block is its expression; an expression that ends in a sub-expression keeps its start and ends where that sub-expression ends; all other nodes are untouched")]
     out += [k("gluon_parser", INFIX, "c08__builtin_ops__" + n, "built-in " + c, [INFIX + "::OpTable::get"]) for n, c in ops]
